@@ -154,6 +154,7 @@ def plain_for_scenic(text):
 
 REGRESSIONS = {
     "fstring_conversion": 'y = f"{x!r} {x!s:>4}"\n',
+    "fstring_escaped_braces_around_a_field": "y = f'{{{x}}}'\nz = f'{{{{{x}}}}} {y}'\n",
     "fstring_self_documenting": 'y = f"{a=} {a=:x}"\n',
     "fstring_escapes": "y = f'a\\nb{x}\\'c'\n",
     "star_argument_on_its_own_line": "f(a,\n  *b)\n",
@@ -231,11 +232,11 @@ def check_file(path):
 
     text = open(path, encoding="utf-8").read()
     old = signal.signal(signal.SIGALRM, on_alarm)
-    signal.alarm(TIMEOUT)
+    signal.alarm(TIMEOUT + 30 * (len(text) // 1024))  # the Python-in-Python parser needs seconds per kB on a loaded machine
     try:
         tree, _ = compileScenicAST(parse_string(text, "exec", filename=path), filename=path)
     except Hang:
-        return dict(outcome="timeout", msg=f"no result within {TIMEOUT}s")
+        return dict(outcome="timeout", msg=f"no result within {TIMEOUT + 30 * (len(text) // 1024)}s")
     except ScenicSyntaxError as e:
         return dict(outcome="rejected", msg=f"{getattr(e, 'msg', e)} (line {getattr(e, 'lineno', '?')})")
     except RecursionError:
